@@ -28,30 +28,34 @@ type NA_I1 []I1
 type NB_I1 []I1
 type NA_I2 []I2
 type NB_I2 []I2
+type NA_I01 []I01
+type NB_I01 []I01
 
 var namedSlices = map[string]reflect.Type{
-	"A/T0": reflect.TypeOf(NA_T0(nil)),
-	"B/T0": reflect.TypeOf(NB_T0(nil)),
-	"A/T1": reflect.TypeOf(NA_T1(nil)),
-	"B/T1": reflect.TypeOf(NB_T1(nil)),
-	"A/T2": reflect.TypeOf(NA_T2(nil)),
-	"B/T2": reflect.TypeOf(NB_T2(nil)),
-	"A/T3": reflect.TypeOf(NA_T3(nil)),
-	"B/T3": reflect.TypeOf(NB_T3(nil)),
-	"A/T4": reflect.TypeOf(NA_T4(nil)),
-	"B/T4": reflect.TypeOf(NB_T4(nil)),
-	"A/T5": reflect.TypeOf(NA_T5(nil)),
-	"B/T5": reflect.TypeOf(NB_T5(nil)),
-	"A/S0": reflect.TypeOf(NA_S0(nil)),
-	"B/S0": reflect.TypeOf(NB_S0(nil)),
-	"A/S1": reflect.TypeOf(NA_S1(nil)),
-	"B/S1": reflect.TypeOf(NB_S1(nil)),
-	"A/I0": reflect.TypeOf(NA_I0(nil)),
-	"B/I0": reflect.TypeOf(NB_I0(nil)),
-	"A/I1": reflect.TypeOf(NA_I1(nil)),
-	"B/I1": reflect.TypeOf(NB_I1(nil)),
-	"A/I2": reflect.TypeOf(NA_I2(nil)),
-	"B/I2": reflect.TypeOf(NB_I2(nil)),
+	"A/T0":  reflect.TypeOf(NA_T0(nil)),
+	"B/T0":  reflect.TypeOf(NB_T0(nil)),
+	"A/T1":  reflect.TypeOf(NA_T1(nil)),
+	"B/T1":  reflect.TypeOf(NB_T1(nil)),
+	"A/T2":  reflect.TypeOf(NA_T2(nil)),
+	"B/T2":  reflect.TypeOf(NB_T2(nil)),
+	"A/T3":  reflect.TypeOf(NA_T3(nil)),
+	"B/T3":  reflect.TypeOf(NB_T3(nil)),
+	"A/T4":  reflect.TypeOf(NA_T4(nil)),
+	"B/T4":  reflect.TypeOf(NB_T4(nil)),
+	"A/T5":  reflect.TypeOf(NA_T5(nil)),
+	"B/T5":  reflect.TypeOf(NB_T5(nil)),
+	"A/S0":  reflect.TypeOf(NA_S0(nil)),
+	"B/S0":  reflect.TypeOf(NB_S0(nil)),
+	"A/S1":  reflect.TypeOf(NA_S1(nil)),
+	"B/S1":  reflect.TypeOf(NB_S1(nil)),
+	"A/I0":  reflect.TypeOf(NA_I0(nil)),
+	"B/I0":  reflect.TypeOf(NB_I0(nil)),
+	"A/I1":  reflect.TypeOf(NA_I1(nil)),
+	"B/I1":  reflect.TypeOf(NB_I1(nil)),
+	"A/I2":  reflect.TypeOf(NA_I2(nil)),
+	"B/I2":  reflect.TypeOf(NB_I2(nil)),
+	"A/I01": reflect.TypeOf(NA_I01(nil)),
+	"B/I01": reflect.TypeOf(NB_I01(nil)),
 }
 
 // namedSliceType returns the declared slice type variant ("A" or "B") for
